@@ -3,7 +3,7 @@
 # X in A,B -> /tmp/mut/<ID>.out/<X>; X in C,D -> /tmp/mut/<ID>.out2/{A,B} (second round)
 cd "$(dirname "$0")/.."
 id="$1"; x="$2"; tier="$3"; shift 3
-case "$x" in A|B) d="/tmp/mut/$id.out/$x";; C) d="/tmp/mut/$id.out2/A";; D) d="/tmp/mut/$id.out2/B";; esac
+case "$x" in A|B) d="/tmp/mut/$id.out/$x";; C) d="/tmp/mut/$id.out2/A";; D) d="/tmp/mut/$id.out2/B";; E) d="/tmp/mut/$id.out3/A";; F) d="/tmp/mut/$id.out3/B";; esac
 mkdir -p .build/mut
 {
   echo "=== $id$x $(jq -r .title $d/meta.json 2>/dev/null)"
